@@ -543,7 +543,7 @@ fn main() {
         property: "C16",
         classes: CLASSES,
         required: &["accepted_equal", "system_file_equal", "tz_string_equal", "rejected_as_required", "rejected_optional", "accepted_mutant_agrees", "truncation", "header_count", "version_byte", "type_index", "abbr_index", "transition_time", "footer_mutant", "tz_edit", "queried_without_panic", "alloc_bounded"],
-        rule: "accept: every bounded zone model (as in C05) written as TZif v1/v2/v3 fat/slim with/without indicators by an independent writer, every system zoneinfo file, and a grid of TZ strings (names incl. quoted forms, offsets h / hh / h:mm:ss with signs, every Mm.w.d, every Jn, every n, rule times) must be accepted and the zone's derived Debug rendering must equal the model (transitions, types, rule); reject / survive: for base files (synthetic in every layout + system files) every truncation length, every header count x extreme values, version byte x 256, magic flips, every transition type index x 256, every abbreviation index x 256, isdst / utoff extremes, transition times x extremes, swaps and duplicates, footer {missing newlines, ':', NUL, non-UTF-8, every 1-edit mutant}, every byte x 6 values on small files; TZ strings: every 1-edit (thorough: 2-edit) mutant of valid rules; a mutant must be rejected iff the independent structural reader rejects it for one of the reasons the statement names; when both accept the contents must agree; every accepted zone is queried at i64 / range extremes and around its transitions in both directions without panicking; the largest single allocation request during a read must stay within 64 x input size + 64 KiB",
+        rule: "accept: every bounded zone model (as in C05) written as TZif v1/v2/v3 fat/slim with/without indicators by an independent writer, every system zoneinfo file, footers carrying every kind of rule time (extended version-3 times of both signs with minute / second parts, plain version-2 times), tables of 255..70,000 transitions, and a grid of TZ strings (names incl. quoted forms, offsets h / hh / h:mm:ss with signs, every Mm.w.d, every Jn, every n, rule times) must be accepted and the zone's derived Debug rendering must equal the model (transitions, types, rule); reject / survive: for base files (synthetic in every layout + system files) every truncation length, every header count x extreme values, version byte x 256, magic flips, every transition type index x 256, every abbreviation index x 256, isdst / utoff extremes, transition times x extremes, swaps and duplicates, footer {missing newlines, ':', NUL, non-UTF-8, every 1-edit mutant}, every byte x 6 values on small files; TZ strings: every 1-edit (thorough: 2-edit) mutant of valid rules; a mutant must be rejected iff the independent structural reader rejects it for one of the reasons the statement names; when both accept the contents must agree; every accepted zone is queried at i64 / range extremes and around its transitions in both directions without panicking; the largest single allocation request during a read must stay within 64 x input size + 64 KiB",
         assumptions: &["leap-second records are not judged by the reference reader (files carrying them are only required to be survived)", "name / offset-range / rule-consistency checks beyond the structural rules named in the statement may reject additional mutants (counted as rejected_optional)"],
     };
     let tier = args.tier;
